@@ -80,6 +80,11 @@ pub struct Level {
 
 /// everything the oracle needs about one hunk on one file at level f
 pub fn level(file: &[u8], old: &[u8], p: usize, s: usize, f: usize, first_line_is_1: bool) -> Level {
+    level_from(file, old, p, s, f, first_line_is_1, isize::MIN)
+}
+
+/// `min_q`: positions before it do not count (they lie before what the previous hunk changed: no implementation may use them)
+pub fn level_from(file: &[u8], old: &[u8], p: usize, s: usize, f: usize, first_line_is_1: bool, min_q: isize) -> Level {
     let (pf, sf, tp, ts) = trims(p, s, f);
     let pat = &old[pf..old.len() - sf];
     let anchor = if tp < ts && first_line_is_1 {
@@ -93,7 +98,7 @@ pub fn level(file: &[u8], old: &[u8], p: usize, s: usize, f: usize, first_line_i
         return Level { pf, anchor, cands: vec![], maxq: -1, fits: false };
     }
     let maxq = (file.len() - pat.len()) as isize;
-    let cands = (0..=maxq).filter(|&q| &file[q as usize..q as usize + pat.len()] == pat).collect();
+    let cands = (0..=maxq).filter(|&q| q >= min_q && &file[q as usize..q as usize + pat.len()] == pat).collect();
     Level { pf, anchor, cands, maxq, fits: true }
 }
 
@@ -127,6 +132,13 @@ pub struct Verdict {
 /// trimming `pf` leading lines is expected `pf` lines further down (patch: first guess + prefix fuzz).
 /// `full`: false = only clause (1) is decidable (the hunk conflicts with the previous one, which the statement leaves open).
 pub fn judge(file: &[u8], old: &[u8], p: usize, s: usize, first_line_is_1: bool, fmax: usize, expected0: &[isize], hr: &HR, full: bool, single: bool) -> Verdict {
+    judge_from(file, old, p, s, first_line_is_1, fmax, expected0, hr, full, single, isize::MIN)
+}
+
+/// `min_q` > MIN: the hunk is expected behind the previous one and every match lies clearly before or clearly behind it; only
+/// the ones behind count, and "misordered" is no answer when one of them is there
+pub fn judge_from(file: &[u8], old: &[u8], p: usize, s: usize, first_line_is_1: bool, fmax: usize, expected0: &[isize], hr: &HR, full: bool, single: bool, min_q: isize) -> Verdict {
+    let level = |file: &[u8], old: &[u8], p: usize, s: usize, f: usize, first: bool| level_from(file, old, p, s, f, first, min_q);
     let cap = fmax.min(p.max(s));
     let exp_at = |l: &Level| -> Vec<isize> { expected0.iter().map(|e| e + l.pf as isize).collect() };
     match hr {
@@ -183,6 +195,14 @@ pub fn judge(file: &[u8], old: &[u8], p: usize, s: usize, first_line_is_1: bool,
             // "misordered" is not a failure for lack of a match: the statement does not constrain it
             // (C01 and C03 do); it cannot happen to the only hunk of a patch.
             if reason == "MisorderedHunks" && !expected0.is_empty() && !single {
+                if full && min_q > isize::MIN {
+                    for g in 0..=cap {
+                        let lg = level(file, old, p, s, g, first_line_is_1);
+                        if !admissible(&lg, &exp_at(&lg)).is_empty() {
+                            return Verdict { violation: Some(("refused-as-misordered-although-a-position-behind-the-previous-hunk-matches".into(), format!("level {} positions {:?}", g, lg.cands))), nontrivial: true };
+                        }
+                    }
+                }
                 return Verdict { violation: None, nontrivial: false };
             }
             Verdict { violation: Some(("unexpected-failure-reason".into(), reason.clone())), nontrivial: true }
@@ -302,14 +322,15 @@ fn sweep_shape(sh: &Shape, files: &[Vec<u8>], n: usize, fcap: usize, rep: &mut R
 
 /// two-hunk sweep: a first hunk derived from a file position (so that it applies, possibly with an
 /// offset) followed by a general second hunk; checks "expected line = stated + previous offset".
-fn sweep_two(file: &[u8], second: &[Shape], n: usize, fcap: usize, rep: &mut Report) {
+fn sweep_two(file: &[u8], second: &[Shape], n: usize, fcap: usize, lean: bool, rep: &mut Report) {
     let fbytes = sym_file(file);
     for i1 in 0..file.len() {
-        for c1 in 0..=1usize {
+        // lean (the long files): the first hunk without context, stated where it is
+        for c1 in 0..=(if lean { 0 } else { 1usize }) {
             if i1 < c1 || i1 + 1 + c1 > file.len() {
                 continue;
             }
-            for delta1 in -2..=2isize {
+            for delta1 in (if lean { 0..=0isize } else { -2..=2isize }) {
                 let h1 = Shape { pc: file[i1 - c1..i1].to_vec(), rc: vec![file[i1]], kc: vec![2], sc: file[i1 + 1..i1 + 1 + c1].to_vec() };
                 let true1 = (i1 - c1) as isize;
                 let st1 = true1 + 1 + delta1;
@@ -360,13 +381,33 @@ fn sweep_two(file: &[u8], second: &[Shape], n: usize, fcap: usize, rep: &mut Rep
                             let cap = fmax.min(sh.p().max(sh.s()));
                             let old2 = sh.old(false);
                             let mut full = true;
+                            let mut all_cands: Vec<isize> = vec![];
                             for g in 0..=cap {
                                 let lg = level(file, &old2, sh.p(), sh.s(), g, stated <= 1);
                                 if lg.cands.iter().any(|&q| q <= block1_end) {
                                     full = false;
                                 }
+                                all_cands.extend(lg.cands.iter().map(|&q| q - lg.pf as isize));
                             }
-                            let v2 = judge(file, &old2, sh.p(), sh.s(), stated <= 1, fmax, &expected, &a.hunks[1], full, false);
+                            // ... unless the hunk is expected clearly behind the first one and no match is anywhere near it: the matches
+                            // that lie before the first hunk (whole, with every context line, before where that one starts) are out of
+                            // reach by everybody's rules - patch never looks before the lines it has already written - and the rest
+                            // is decided as usual
+                            let mut min_q = isize::MIN;
+                            if !full {
+                                if let HR::Applied { line: l1, fuzz: f1, .. } = &a.hunks[0] {
+                                    let (pf1, _, _, _) = trims(h1.p(), h1.s(), *f1);
+                                    let block1_start = *l1 - pf1 as isize;
+                                    let len2 = old2.len() as isize;
+                                    let clear = all_cands.iter().all(|&q| q + len2 <= block1_start || q > block1_end);
+                                    if clear && expected.iter().all(|&e| e > block1_end) {
+                                        full = true;
+                                        min_q = block1_end + 1;
+                                        rep.count("second-hunk-decided-with-matches-before-the-first-hunk-out-of-reach");
+                                    }
+                                }
+                            }
+                            let v2 = judge_from(file, &old2, sh.p(), sh.s(), stated <= 1, fmax, &expected, &a.hunks[1], full, false, min_q);
                             if full {
                                 rep.count("second-hunk-fully-decided");
                                 // does the previous hunk's offset matter here? (would the verdict differ with offset 0)
@@ -531,11 +572,17 @@ pub fn run(args: &[String]) {
     let files3: Vec<Vec<u8>> = seqs_exact(n3, 2);
     let nf2 = files2.len();
     let nf3 = files3.len();
-    let rep = par_shards(n1 + nf2 + nf3 + files.len(), n_threads(), |i, rep| {
-        if i < n1 {
+    // long files for the two-hunk sweep: room for a match of the second hunk before the first one that is nearer than the one behind it
+    let n2long: usize = args.get(5).and_then(|s| s.parse().ok()).unwrap_or(9);
+    let files2long: Vec<Vec<u8>> = seqs_exact(n2long, 2);
+    let nf2l = files2long.len();
+    let rep = par_shards(n1 + nf2 + nf3 + files.len() + nf2l, n_threads(), |i, rep| {
+        if i >= n1 + nf2 + nf3 + files.len() {
+            sweep_two(&files2long[i - n1 - nf2 - nf3 - files.len()], &second, n2long, fcap.min(2), true, rep);
+        } else if i < n1 {
             sweep_shape(&sh[i], &files, n, fcap, rep);
         } else if i < n1 + nf2 {
-            sweep_two(&files2[i - n1], &second, n2, fcap, rep);
+            sweep_two(&files2[i - n1], &second, n2, fcap, false, rep);
         } else if i < n1 + nf2 + nf3 {
             sweep_three(&files3[i - n1 - nf2], &second, rep);
         } else {
@@ -548,6 +595,8 @@ pub fn run(args: &[String]) {
         ("max_fuzz_limit", J::u(fcap as u64)),
         ("hunk_shapes", J::u(n1 as u64)),
         ("two_hunk_files", J::u(files2.len() as u64)),
+        ("two_hunk_long_files", J::u(nf2l as u64)),
+        ("two_hunk_long_file_len", J::u(n2long as u64)),
         ("three_hunk_files", J::u(files3.len() as u64)),
         ("wall_s", J::F(t0.elapsed().as_secs_f64())),
     ]);
